@@ -175,7 +175,13 @@ func HostileInputs(r *vlib.Rng, w *World, f Flavour, count int) []Input {
 			label := "keys/"
 			resign := true
 			slot, ptr := uint64(DefaultSlot), uint64(DefaultPtr)
-			switch r.Intn(20) {
+			switch r.Intn(21) {
+			case 20: // neither signers nor signatures
+				w.SignKeys(f, m, signers, slot, ptr)
+				setSigners(m, nil)
+				extraSigs(m, r, -1000)
+				resign = false
+				label += "no-signers-no-sigs"
 			case 0:
 				m.Eon = bigU[r.Intn(len(bigU))]
 				label += "eon=big"
